@@ -1,6 +1,7 @@
 package core
 
 import (
+	"sort"
 	"encoding/json"
 	"fmt"
 	"strconv"
@@ -113,6 +114,27 @@ func (n *Node) ServiceStatus(chainServiceID string) string {
 		return ""
 	}
 	return obj.Status
+}
+
+// ServiceBlacklist returns the full service ids the stored record of service "<chainID>:<serviceID>" names in its
+// permission list (the callers it refuses), sorted; read from the stored record like ServiceStatus.
+func (n *Node) ServiceBlacklist(chainServiceID string) []string {
+	out := []string{}
+	data := n.stateDB.Get(append(append([]byte{}, constant.ServiceMgrContractAddr.Address().Bytes()...), []byte("service-"+chainServiceID)...))
+	if data == nil {
+		return out
+	}
+	var obj struct {
+		Permission map[string]struct{} `json:"permission"`
+	}
+	if json.Unmarshal(data, &obj) != nil {
+		return out
+	}
+	for k := range obj.Permission {
+		out = append(out, k)
+	}
+	sort.Strings(out)
+	return out
 }
 
 // VoteAll lets the admins vote in config order, one vote per block, until the proposal is concluded.
